@@ -878,7 +878,8 @@ theorem specNL_single (F : FloatOps) (p : Pat) (hp : SpecN F C p) : SpecNL F C [
       | fail ρ1 => rw [hr] at h; simp at h
       | err e => rw [hr] at h; simp at h
 
-theorem specNL_cons (F : FloatOps) (p q : Pat) (ps : List Pat) (hn : notSeq p = true) (hp : Spec F C p)
+theorem specNL_cons (F : FloatOps) (p q : Pat) (ps : List Pat)
+    (hn : ∀ (a : Acc) (ρ : Env), mPat F C false p false a ρ = mPat F C true p false a ρ) (hp : Spec F C p)
     (hps : SpecNL F C (q :: ps)) : SpecNL F C (p :: q :: ps) := by
   intro c i ρ ys hlen hidx hnr
   cases ys with
@@ -898,7 +899,7 @@ theorem specNL_cons (F : FloatOps) (p q : Pat) (ps : List Pat) (hn : notSeq p = 
     have sp := hp false (.elem (.tmp c) i) ρ y hy hnr.1
     have e : mPat F C false p (true && (q :: ps).isEmpty) (.elem (.tmp c) i) ρ
         = mPat F C true p false (.elem (.tmp c) i) ρ := by
-      simpa using mPat_false_eq F p _ ρ hn
+      simpa using hn _ ρ
     constructor
     · intro β hd
       simp only [DeclAll] at hd
@@ -964,9 +965,9 @@ theorem specN_exact (F : FloatOps) (pre : List Pat) (hpre : pre ≠ []) (hs : Sp
 @[simp] theorem fin_false_true (ρ : Env) : fin false true ρ = .done ρ := by simp [fin]
 
 theorem specN_trailing (F : FloatOps) (pre : List Pat) (r : Option Name) (hs : SpecL F C pre)
-    (hns : noSeqL pre = true) : SpecN F C (.seq pre (some r) []) := by
+    (hns : ∀ (s : Src) (i : Int) (ρ : Env), mPats F C false pre s i false ρ = mPats F C true pre s i false ρ) : SpecN F C (.seq pre (some r) []) := by
   intro a ρ v hr hnr
-  rw [mPat_trailing F false true pre r a ρ (.tmp v) (hr.container ρ), mPats_false_eq F pre _ _ _ hns]
+  rw [mPat_trailing F false true pre r a ρ (.tmp v) (hr.container ρ), hns]
   simp only [ite_self]
   simp only [Src.rd, Decl]
   cases hv : view v with
@@ -1125,7 +1126,7 @@ theorem specN_pat (F : FloatOps) : ∀ (p : Pat), wf p = true → earlyFree p = 
         exact specN_exact F pre hne (specN_pats F pre hwpre (by simpa using he) hne)
       | some r =>
         exact specN_trailing F pre r (spec_pats F pre hwpre)
-          (earlyFreeL_false_noSeq pre hwpre (by simpa using he))
+          (fun s i ρ => mPats_false_eq F pre s i ρ (earlyFreeL_false_noSeq pre hwpre (by simpa using he)))
     | cons q qs =>
       simp only [earlyFree, List.isEmpty_cons, Bool.false_eq_true, if_false, Bool.and_eq_true,
         List.isEmpty_iff] at he
@@ -1144,7 +1145,7 @@ theorem specN_pats (F : FloatOps) : ∀ (ps : List Pat), wfL ps = true → early
   | p :: q :: ps, hw, he, _ => by
     simp only [wfL, Bool.and_eq_true] at hw
     simp only [earlyFreeL, Bool.and_eq_true, Bool.not_eq_true'] at he
-    exact specNL_cons F p q ps (wf_notSeq p hw.1 he.1.2) (spec_pat F p hw.1)
+    exact specNL_cons F p q ps (fun a ρ => mPat_false_eq F p a ρ (wf_notSeq p hw.1 he.1.2)) (spec_pat F p hw.1)
       (specN_pats F (q :: ps) (by simp [wfL, hw.2]) he.2 (by simp))
 end
 
